@@ -59,7 +59,8 @@ JudgeToken(o) ==
        ELSE "ok"
 
 JudgeCancel(o) ==
-    IF o.leftover.cancellers = 0 /\ o.leftover.pending = 0 /\ o.leftover.waits = 0 /\ o.childrpcs_after = 0 THEN "ok"
+    IF o.endedtwice THEN "ChildCancelled:ended-twice"
+    ELSE IF o.leftover.cancellers = 0 /\ o.leftover.pending = 0 /\ o.leftover.waits = 0 /\ o.childrpcs_after = 0 THEN "ok"
     ELSE "ChildCancelled"
 
 Judge(o) == CASE o.kind = "child" -> JudgeChild(o)
